@@ -101,24 +101,24 @@ func question(r *hlib.Rand, known []string, addrs []string) string {
 		qt = hlib.Pick(r, mdns.TypeA, mdns.TypeAAAA, mdns.TypeTXT)
 	}
 	var name string
-	switch r.Intn(10) {
-	case 0:
-		name = hlib.Pick(r, "unknown.", "host9.", ".", "host1", "host1..", "com.", "ost1.", "host1.x.")
-	case 1, 2, 3:
-		// an address literal (TXT lookups)
-		name = hlib.Pick(r, addrs...) + "."
-		if r.Chance(1, 8) {
-			name = hlib.Pick(r, "10.0.0.99.", "fd00::99.", "10.0.0.5", "10.0.0.5x", "fD00::5.", "1.", "::.")
-		}
-	default:
+	pickKnown := func() string {
 		if len(known) > 0 {
-			name = mixCase(r, hlib.Pick(r, known...)) + "."
-		} else {
-			name = hlib.Pick(r, certNames...) + "."
+			return mixCase(r, hlib.Pick(r, known...)) + "."
 		}
+		return hlib.Pick(r, certNames...) + "."
 	}
-	if qt == mdns.TypeTXT && r.Chance(1, 2) {
+	switch x := r.Intn(20); {
+	case x == 0:
+		name = hlib.Pick(r, "unknown.", "host9.", ".", "host1", "host1..", "com.", "ost1.", "host1.x.", "")
+	case x == 1:
+		name = hlib.Pick(r, "10.0.0.99.", "fd00::99.", "10.0.0.5", "10.0.0.5x", "fD00::5.", "1.", "::.", "10.0.0.5..")
+	case x < 5:
+		name = hlib.Pick(r, certNames...) + "."
+	case qt == mdns.TypeTXT && x < 16:
+		// an address literal (certificate lookups)
 		name = hlib.Pick(r, addrs...) + "."
+	default:
+		name = pickKnown()
 	}
 	o := "x"
 	if len(name) >= 2 {
@@ -152,8 +152,12 @@ func gen(r *hlib.Rand, n int, tier, profile string, emit func(string, ...any)) {
 		steps := r.Range(3, 14)
 		for s := 0; s < steps; s++ {
 			emitted++
-			switch x := r.Intn(20); {
-			case x < 5 && hsCount < 5:
+			x := r.Intn(20)
+			if s < 2 && r.Bool() {
+				x = 0
+			}
+			switch {
+			case x < 4 && hsCount < 5:
 				hsCount++
 				name := hlib.Pick(r, certNames...)
 				as := addrList(r, peerV4, peerV6)
@@ -162,8 +166,9 @@ func gen(r *hlib.Rand, n int, tier, profile string, emit func(string, ...any)) {
 				emit("hs %d %s %s", hsCount, hx(name), addrsArg(as))
 			case x == 5:
 				emit("seed")
-			case x == 6:
+			case x == 6 && r.Bool():
 				emit("disable")
+				known = known[:0]
 			case x == 7:
 				emit("enable")
 			default:
